@@ -1052,6 +1052,15 @@ class Channel(ClosingContextManager):
             self._log(
                 ERROR, "unknown extended_data type {}; discarding".format(code)
             )
+            # the peer has still spent that much of the window we granted;
+            # nobody will ever read these bytes, so account for them now
+            ack = self._check_add_window(len(s))
+            if ack > 0:
+                m = Message()
+                m.add_byte(cMSG_CHANNEL_WINDOW_ADJUST)
+                m.add_int(self.remote_chanid)
+                m.add_int(ack)
+                self.transport._send_user_message(m)
             return
         # (under the lock: see set_combine_stderr)
         self.lock.acquire()
